@@ -18,11 +18,16 @@
 const char *prog = "verif";
 #endif
 
-enum { C_YMD, C_YWD, C_YD, C_YMCW, C_DAISY, C_LDN, C_JDN, C_MDN, C_BIZDA, NCAL };
-static const char *const cal_name[NCAL] = {"ymd", "ywd", "yd", "ymcw", "daisy", "ldn", "jdn", "mdn", "bizda"};
+/* epoch  = the day's midnight as "@SECONDS" (format-less parser; the same value must come out of -i %s SECONDS)
+ * ymcw-w0 = ymcw with Sunday written 00, the documented %w spelling (Sundays only)
+ * ywd-w0  = ISO week date read with -i %G-W%V-%w, Sunday written 00 (Sundays only) */
+enum { C_YMD, C_YWD, C_YD, C_YMCW, C_DAISY, C_LDN, C_JDN, C_MDN, C_BIZDA, C_EPOCH, C_YMCW0, C_YWD0, NCAL };
+static const char *const cal_name[NCAL] = {"ymd", "ywd", "yd", "ymcw", "daisy", "ldn", "jdn", "mdn", "bizda", "epoch", "ymcw-w0", "ywd-w0"};
 /* input format handed to the parser (NULL: the format-less standard parser) */
-static const char *const cal_ifmt[NCAL] = {NULL, NULL, NULL, NULL, NULL, "ldn", "jdn", "mdn", NULL};
-static const dt_dtyp_t cal_typ[NCAL] = {DT_YMD, DT_YWD, DT_YD, DT_YMCW, DT_DAISY, DT_LDN, DT_JDN, DT_MDN, DT_BIZDA};
+static const char *const cal_ifmt[NCAL] = {NULL, NULL, NULL, NULL, NULL, "ldn", "jdn", "mdn", NULL, NULL, NULL, "%G-W%V-%w"};
+static const dt_dtyp_t cal_typ[NCAL] = {DT_YMD, DT_YWD, DT_YD, DT_YMCW, DT_DAISY, DT_LDN, DT_JDN, DT_MDN, DT_BIZDA, DT_DUNK, DT_YMCW, DT_YWD};
+/* the calendar whose names the default output of a value held in C uses */
+static const int cal_base[NCAL] = {C_YMD, C_YWD, C_YD, C_YMCW, C_DAISY, C_LDN, C_JDN, C_MDN, C_BIZDA, C_EPOCH, C_YMCW, C_YWD};
 
 /* the day's name in calendar C; 0 if it has none (weekend in bizda).
  * daisy has no text: the ymd text is parsed and converted (dseq does that) */
@@ -45,6 +50,21 @@ cal_text(int c, const struct rc_day *p, char *buf, size_t bsz)
 		}
 		snprintf(buf, bsz, "%04d-%02d-%02db", p->y, p->m, p->bd);
 		break;
+	case C_EPOCH: snprintf(buf, bsz, "@%lld", (long long)p->unixd * 86400LL); break;
+	case C_YMCW0:
+		if (p->wd != 7) {
+			*buf = '\0';
+			return 0;
+		}
+		snprintf(buf, bsz, "%04d-%02d-%02d-00", p->y, p->m, p->mcnt);
+		break;
+	case C_YWD0:
+		if (p->wd != 7) {
+			*buf = '\0';
+			return 0;
+		}
+		snprintf(buf, bsz, "%04d-W%02d-00", p->isoy, p->isow);
+		break;
 	}
 	return 1;
 }
@@ -66,11 +86,27 @@ cal_value(int c, const struct rc_day *p, struct dt_dt_s *out)
 	if (c == C_DAISY) {
 		v = dt_dtconv((dt_dttyp_t)DT_DAISY, v);
 	}
-	if (v.d.typ != cal_typ[c]) {
+	if (c == C_EPOCH) {
+		/* the other documented spelling, -i %s SECONDS, must give the very same value */
+		struct dt_dt_s w = dt_strpdt(text + 1, "%s", NULL);
+		if (v.typ != DT_SEXY || memcmp(&v, &w, sizeof(v))) {
+			return -1;
+		}
+	} else if (v.d.typ != cal_typ[c]) {
 		return -1;
 	}
 	*out = v;
 	return 1;
+}
+
+/* day count of a result as the library converts it */
+static inline unsigned int
+obs_daisy(struct dt_dt_s r)
+{
+	if (r.typ == DT_SEXY) {
+		return dt_dtconv((dt_dttyp_t)DT_DAISY, r).d.daisy;
+	}
+	return dt_dconv(DT_DAISY, r.d).daisy;
 }
 
 /* durations: parsed from the text a user types, through the tools' own front
@@ -147,8 +183,11 @@ scan_ints(const char *s, long long v[], int maxv, char *sk, size_t sksz)
 static void
 exp_dflt(int c, const struct rc_day *p, char *buf, size_t bsz)
 {
+	c = cal_base[c];
 	if (c == C_JDN) {
 		snprintf(buf, bsz, "%.6f", rc_jdn(p->rd));
+	} else if (c == C_EPOCH) {
+		snprintf(buf, bsz, "%04d-%02d-%02dT00:00:00", p->y, p->m, p->d);
 	} else if (!cal_text(c, p, buf, bsz)) {
 		snprintf(buf, bsz, "(%04d-%02d-%02d is a weekend day: no bizda name)", p->y, p->m, p->d);
 	}
@@ -163,7 +202,10 @@ dflt_agrees(int c, const struct rc_day *p, const char *got)
 	char sk[16];
 	int n = scan_ints(got, v, 6, sk, sizeof(sk));
 
-	switch (c) {
+	switch (cal_base[c]) {
+	case C_EPOCH:
+		/* an epoch prints as date and time of day: the day's midnight */
+		return n == 6 && !strcmp(sk, "--T::") && v[0] == p->y && v[1] == p->m && v[2] == p->d && !v[3] && !v[4] && !v[5];
 	case C_YMD:
 	case C_DAISY:
 		return n == 3 && !strcmp(sk, "--") && v[0] == p->y && v[1] == p->m && v[2] == p->d;
@@ -216,9 +258,9 @@ dadd_cmd(char *cmd, size_t csz, int c, const char *text, const char *durs, const
 	if (c == C_DAISY) {
 		return NULL;
 	} else if (cal_ifmt[c]) {
-		snprintf(cmd, csz, "dadd -i %s%s %s %s", cal_ifmt[c], o, text, durs);
+		snprintf(cmd, csz, "dadd -i '%s'%s %s -- %s", cal_ifmt[c], o, text, durs);
 	} else {
-		snprintf(cmd, csz, "dadd%s %s %s", o, text, durs);
+		snprintf(cmd, csz, "dadd%s %s -- %s", o, text, durs);
 	}
 	return cmd;
 }
@@ -263,6 +305,66 @@ ex_viol_known(const char *key, double ord)
 		v->hi = ord;
 	}
 	return 1;
+}
+#endif	/* VERIF_EXPLORE_H */
+
+/* input lines for the binding runs: as cal_text, but an epoch goes in as plain
+ * seconds with -i %s (the stdin needle does not look for @N, and takes an
+ * unsigned run of digits: days from 1970-01-02 on) */
+static int
+bind_text(int c, const struct rc_day *p, char *buf, size_t bsz)
+{
+	if (c == C_EPOCH) {
+		if (p->unixd < 1) {
+			*buf = '\0';
+			return 0;
+		}
+		snprintf(buf, bsz, "%lld", (long long)p->unixd * 86400LL);
+		return 1;
+	}
+	return cal_text(c, p, buf, bsz);
+}
+
+static inline const char*
+bind_ifmt(int c)
+{
+	return c == C_EPOCH ? "%s" : cal_ifmt[c];
+}
+
+#if defined VERIF_EXPLORE_H
+/* documented spellings of the duration units (dadd --help: "nY, nMO, nW, or nD
+ * ... can be written lower-case as well (y, mo, w, d ...) and the unit symbol
+ * d can be omitted"): each must parse to the very duration its canonical
+ * lower-case spelling parses to, then everything explored for the canonical
+ * spelling holds for it */
+struct spell_s {
+	const char *variant;
+	const char *canon;
+};
+
+static void
+check_spellings(const struct spell_s *sp, int nsp)
+{
+	EX_CTR(c_sp, "duration spellings compared with their canonical form");
+	for (int i = 0; i < nsp; i++) {
+		struct durs_s a, b;
+		int ra = mk_durs(&a, sp[i].variant), rb = mk_durs(&b, sp[i].canon);
+		char key[96], cas[64], cmd[128];
+
+		++*c_sp;
+		if (rb < 0) {
+			fprintf(stderr, "BROKEN-CHECK: canonical duration text '%s' not accepted\n", sp[i].canon);
+			exit(3);
+		}
+		if (ra == 0 && a.n == b.n && !memcmp(a.d, b.d, sizeof(a.d[0]) * (size_t)a.n)) {
+			continue;
+		}
+		snprintf(key, sizeof(key), "durtext spelling=%s", sp[i].variant + strspn(sp[i].variant, "+-0123456789"));
+		snprintf(cas, sizeof(cas), "spell %d", i);
+		snprintf(cmd, sizeof(cmd), "dadd 2012-01-31 -- %s", sp[i].variant);
+		ex_viol(key, i, cas, cmd, "documented duration spelling '%s' %s (canonical spelling '%s' is accepted)", sp[i].variant,
+			ra < 0 ? "is rejected by the duration parser" : "parses to another duration", sp[i].canon);
+	}
 }
 #endif	/* VERIF_EXPLORE_H */
 
